@@ -51,9 +51,9 @@ func (decision SupervisionDecision) IsResume() bool {
 	return decision == SupervisionDecisionResume
 }
 
-// IsEscalate 判断当前监督决策是否为升级。
+// IsEscalate 判断当前监督决策是否为升级。预料之外的决策值同样按升级处理（见 SupervisionDecision 的说明）。
 func (decision SupervisionDecision) IsEscalate() bool {
-	return decision == SupervisionDecisionEscalate
+	return decision == SupervisionDecisionEscalate || !decision.IsValid()
 }
 
 // IsValid 判断当前监督决策是否为有效。
